@@ -1,4 +1,5 @@
 #!/bin/bash
-# thorough tier of one property: same rules + dependency sweep + call-graph cross-check (+ mutant sensitivity sweep)
+# thorough tier of one property: the property's rules on the current /repo tree + dependency sweeps + whole-program VTA
+# cross-check of the call graph + the sensitivity sweep over mutants/<Cnn>/*.diff (scratch copies under $TMPDIR, removed).
 cd "$(dirname "$0")/.."
 exec bin/arcacheck -repo /repo -property "$1" -tier thorough
